@@ -575,6 +575,10 @@ def compare(I, op, a, b):
 def equal(I, a, b):
     if a is None or b is None:
         return a is None and b is None
+    for x in (a, b):
+        h = getattr(x, "__vf_compare__", None)
+        if h is not None:
+            return h(I, ast.Eq(), a, b)
     if isinstance(a, (SymSeq, list, tuple)) and isinstance(b, (SymSeq, list, tuple)):
         return seq_eq(I, a, b)
     if isinstance(a, SymSet) and isinstance(b, SymSet):
